@@ -83,8 +83,14 @@ def plan(seed, subbatch):
         fired["sibling_members_on_coarser_timeframes"] += 1
     return {"format": 1, "property": ID, "seed": seed, "subbatch": subbatch,
             "config": {"route": route, "tf": tf, "base_s": base_s, "spec": spec, "lifespan_s": lifespan,
-                       "shared_objects": shared, "siblings": siblings},
+                       "shared_objects": shared, "siblings": siblings,
+                       # gap filling next to the conversion: the recurrence runs over the FILLED collapsed series
+                       "fill": bool(tf) and sub_rng(seed, "fill").random() < 0.15},
             "ops": [{"op": "new", "preload": pre}] + ops, "fired": dict(fired)}
+
+
+def span_of(rows):
+    return rows[-1][0] - rows[0][0] if rows else 0
 
 
 def _close(a, b):
@@ -118,7 +124,8 @@ def execute(trace, ctx=None):
                 if kind == "new":
                     rows = op.get("preload") or []
                     delivered.extend(rows)
-                    subject, _m, view = run.call(len(rows), build_route, route, tf, rows, False, lifespan,
+                    subject, _m, view = run.call(len(rows) + (span_of(rows) // tf_s if tf_s and cfg.get("fill") else 0),
+                                                 build_route, route, tf, rows, bool(cfg.get("fill")), lifespan,
                                                  "HA", spec, None, cfg.get("siblings"))
                 elif subject is None:
                     continue
@@ -132,13 +139,15 @@ def execute(trace, ctx=None):
                     objs = mk_candles(rows)
                     if upstream is not None and objs:
                         upstream.append(objs)   # converts the caller's objects in place
-                    run.call(len(delivered), subject.append, objs)
+                    run.call(len(delivered) + (span_of(delivered) // tf_s if tf_s and cfg.get("fill") else 0),
+                             subject.append, objs)
                     if rows:
                         readings_purged = False
                 elif kind in ("purge", "recalculate", "calculate") and route != "manager":
                     # operator actions between arrivals: they concern readings only and must leave the
                     # converted candles (values, tag, recoverable raw values) exactly as they are
-                    run.call(len(delivered) * 4, getattr(subject, kind))
+                    run.call((len(delivered) + (span_of(delivered) // tf_s if tf_s and cfg.get("fill") else 0)) * 4,
+                             getattr(subject, kind))
                     run.stats["operator:" + kind] += 1
                     readings_purged = kind == "purge"
                 else:
@@ -152,6 +161,8 @@ def execute(trace, ctx=None):
                 raise Discard("member-indicator-raised:" + e.type)
             candles = view()
             raw = refmodels.resample(delivered, tf_s) if tf_s else [list(r) for r in delivered]
+            if tf_s and cfg.get("fill"):
+                raw = refmodels.fill(raw, tf_s)[0]
             want = refmodels.heikin_ashi(raw)
             if lifespan is not None and want:
                 keep = refmodels.trim([w[0] for w in want], lifespan)
